@@ -255,7 +255,10 @@ def run_shard(params):
         chunks = [payload(rng.choice([1, 5, 21, 22, 23, 44, 45, 60,
                                       rng.randint(1, 60)]))
                   for _ in range(rng.randint(1, 3))]
-        rxs = [payload(rng.choice([1, 22, rng.randint(1, 22)]))
+        # (a terminal may announce an empty chunk: it is acknowledged like
+        # any other and delivers nothing)
+        rxs = [payload(rng.choice([1, 22, rng.randint(1, 22), 0,
+                                   rng.randint(0, 3)]))
                for _ in range(rng.randint(1, ntr))]
         desc = dict(channel=channel, tx_delays=txd, rx_gaps=rxg,
                     init_rr=rng.choice([0, 0, 1]),
